@@ -103,6 +103,7 @@ package seq
 //@   ensures list: seqlist(result) == takew(f, old(seqlist(seq)))
 
 //@ func DropWhile
+//@   loops 1
 //@   props C14
 //@   requires seq != nil ==> !done(seq) && view(seq) != []
 //@   ensures result != nil ==> !done(result) && view(result) != []
@@ -111,6 +112,7 @@ package seq
 //@   loop 0 decreases len(view(seq))
 
 //@ func Filter
+//@   loops 1
 //@   props C14
 //@   requires f != nil
 //@   requires seq != nil ==> !done(seq) && view(seq) != []
@@ -135,6 +137,7 @@ package seq
 //@   ensures list: seqlist(result) == old(seqlist(lhs)) ++ old(seqlist(rhs))
 
 //@ func Join
+//@   loops 1
 //@   props C14
 //@   requires lhs != nil ==> !done(lhs) && view(lhs) != []
 //@   ensures result != nil ==> !done(result) && view(result) != []
@@ -147,6 +150,7 @@ package seq
 
 // ForEach visits the list in order and stops with the first error returned
 //@ func ForEach
+//@   loops 1
 //@   props C14
 //@   opt calltrace=on
 //@   requires seq != nil ==> !done(seq) && view(seq) != []
